@@ -139,3 +139,65 @@ Example C02_ex_nonvacuous :
   q [ExDirty.XLine [49;100]%N; ExDirty.XWriteOther] = false /\
   q [ExDirty.XLine [49;100]%N; ExDirty.XReload [122;10]%N] = true.
 Proof. vm_compute. repeat split. Qed.
+
+(* ------------------------------------------------------------------------------------------ *)
+(* C02 AT THE EX INTERFACE, continued: the filter guard of the ex model itself, and SEVERAL BUFFERS.
+   A table of ex-level buffers (slot 0 = current; each with its own file and ghost disk) is driven by ExDirty.tcmd:
+   TCur c (any xcmd on the current buffer), TSwitch force k (b k / e of an open file: bufs_switch = ExDirty.x_switch_to, which
+   bumps the buffer being left, exactly DirtyDefs.switch_to), TOpen force file (e of a new file: a fresh buffer in slot 0);
+   the guard of e / b without ! is lbuf_modified of the current buffer (DirtyDefs.guard_current), the scan of q without ! is
+   ExDirty.x_quit_scan (DirtyDefs.quit_scan).  No bound of 16 is modelled (C20). *)
+
+(* `!` without writeany, the ex model's own ec_exec: refused with the text untouched while the buffer is reported modified;
+   it filters only a buffer whose text equals the ghost disk *)
+Theorem C02_ex_filter_guard : forall data rvalid rfind filter readfile curpath fuel input wa cs loc arg,
+  let x := ExDirty.xrun rvalid rfind filter readfile curpath fuel (ExDirty.xinit data input wa) cs in
+  ExDefs.xwa (ExDirty.xs x) = false ->
+  let res := ExDefs.ec_exec rvalid rfind filter loc arg (ExDirty.xs x) in
+  (snd (ExDefs.lbuf_modified (ExDefs.lb (ExDirty.xs x))) = true ->
+     snd res = 1%Z /\ ExSpec.texts (fst res) = ExSpec.texts (ExDirty.xs x)) /\
+  (snd (ExDefs.lbuf_modified (ExDefs.lb (ExDirty.xs x))) = false ->
+     ExUndo.utext (ExDefs.lb (ExDirty.xs x)) = ExDirty.xdisk x).
+Proof. exact ExDirty.ex_filter_guard. Qed.
+Print Assumptions C02_ex_filter_guard.
+
+(* q without ! after ANY table script (any number of buffers, any interleaving of command lines, writes, reloads, switches
+   and opens): the scan says "exit" only if EVERY buffer's text equals its ghost disk *)
+Theorem C02_ex_table_quit_sound : forall rvalid rfind filter readfile curpath fuel data input wa cs,
+  let t := ExDirty.trun rvalid rfind filter readfile curpath fuel [ExDirty.xinit data input wa] cs in
+  snd (ExDirty.x_quit_scan [] t) = true ->
+  Forall (fun x => ExUndo.utext (ExDefs.lb (ExDirty.xs x)) = ExDirty.xdisk x) t.
+Proof. exact ExDirty.ex_table_quit_sound. Qed.
+Print Assumptions C02_ex_table_quit_sound.
+
+(* ... and when it refuses, the buffer it makes current is one that is reported modified *)
+Theorem C02_ex_table_quit_refused : forall (l pre : list ExDirty.xst), snd (ExDirty.x_quit_scan pre l) = false ->
+  exists cur rest, fst (ExDirty.x_quit_scan pre l) = cur :: rest /\ ExDirty.x_flag cur = true.
+Proof. exact ExDirty.x_quit_scan_false. Qed.
+Print Assumptions C02_ex_table_quit_refused.
+
+(* e / b without ! after ANY table script: refused (only the command counter of the current buffer moves, the table keeps
+   its order) while the current buffer is reported modified; it goes through only when text = ghost disk *)
+Theorem C02_ex_table_guard : forall rvalid rfind filter readfile curpath fuel data input wa cs c,
+  let t := ExDirty.trun rvalid rfind filter readfile curpath fuel [ExDirty.xinit data input wa] cs in
+  (exists k, c = ExDirty.TSwitch false k) \/ (exists d i w, c = ExDirty.TOpen false d i w) ->
+  match t with
+  | [] => True
+  | cur :: rest =>
+    (ExDirty.x_flag cur = true -> ExDirty.tstep rvalid rfind filter readfile curpath fuel t c = ExDirty.x_bump cur :: rest) /\
+    (ExDirty.x_flag cur = false -> ExUndo.utext (ExDefs.lb (ExDirty.xs cur)) = ExDirty.xdisk cur)
+  end.
+Proof. exact ExDirty.ex_table_guard. Qed.
+Print Assumptions C02_ex_table_guard.
+
+(* not vacuous: two buffers; `1d` in the first, e! to a second file, q is refused (the first buffer is modified and becomes
+   current again); then `w` there and q exits *)
+Example C02_ex_table_nonvacuous :
+  let step := ExDirty.tstep (fun _ => true) (fun _ _ _ => None) (fun _ _ => None) (fun _ => None) [] 10 in
+  let t0 := [ExDirty.xinit [97;10;98;10]%N [] true] in
+  let t1 := fold_left step [ExDirty.TCur (ExDirty.XLine [49;100]%N); ExDirty.TOpen true [122;10]%N [] true] t0 in
+  let q1 := ExDirty.x_quit_scan [] t1 in
+  let t2 := fold_left step [ExDirty.TCur (ExDirty.XLine [119]%N)] (fst q1) in
+  length t1 = 2 /\ snd q1 = false /\ ExSpec.texts (ExDirty.xs (hd (ExDirty.xinit [] [] true) (fst q1))) = [[98]]%N /\
+  snd (ExDirty.x_quit_scan [] t2) = true.
+Proof. vm_compute. repeat split. Qed.
